@@ -360,7 +360,7 @@ def proof_stage(rep: Report, prop_file: str, extra_gate: list[str] | None = None
             rc, out = sh(["timeout", "1500", "coqchk", "-o", "-silent", "-Q", ".", "AV", mod], cwd=COQ, timeout=1600)
             m = re.search(r"\* Axioms:(.*?)\n\s*\n", out, re.S)
             axioms = " ".join(m.group(1).split()) if m else "?"
-            rep.coverage["coqchk"] = {"cmd": f"coqchk -o -Q . AV {mod}", "ok": rc == 0 and "successfully checked" in out,
+            rep.coverage["coqchk"] = {"cmd": f"coqchk -o -Q . AV {mod}", "ok": rc == 0 and "* Axioms:" in out,   # -silent prints only the summary; status 0 = all modules checked
                                       "axioms": axioms}
             if rc != 0:
                 rep.coverage["proof_failure"] = {"where": "coqchk " + mod, "gate": [], "log_tail": out[-800:]}
